@@ -408,6 +408,34 @@ impl Prop for C01 {
                 out.push(mk(kind, ch.to_vec()));
             }
         }
+        // (n) every degenerate TLS record (any content type and version, bodies of 0..6 bytes) alone through the
+        // ClientHello reader and, as a flow's only data, through the TLS analyzer - each four times in a row, so that
+        // one copy meets each of the run-index-dependent configurations (logging is on for one run in four)
+        {
+            let mut r2 = Rng::new(0xC01_7E5);
+            let vspec = tls::random_spec(&mut r2, 600);
+            let valid = tls::client_hello(&mut r2, &vspec);
+            const BODIES: [&[u8]; 10] = [&[], &[0], &[1], &[1, 0], &[1, 0, 0], &[1, 0, 0, 0], &[1, 0, 0, 5], &[0, 0, 0, 0], &[2, 0, 0, 0], &[1, 0, 0, 2, 3, 3]];
+            for ct in [0x16u8, 0x14, 0x15, 0x17, 0x18] {
+                for ver in [0x0301u16, 0x0303, 0x0300, 0x0304] {
+                    let mut frames = vec![];
+                    for body in BODIES.iter() {
+                        let rec = tls::record(ct, ver, body);
+                        for _ in 0..4 {
+                            out.push(Scn { entry: Entry::TlsReader { stream: rec.clone(), cuts: vec![], valid: valid.clone() }, db_variant: 0 });
+                        }
+                        let mut seg = pkt::Seg::new(Endpoint::v4(10, 8, 1, body.len() as u8 + 1, 50000 + ct as u16), Endpoint::v4(10, 8, 0, 2, 443));
+                        seg.flags = pkt::ACK | pkt::PSH;
+                        seg.seq = 1001;
+                        seg.payload = rec;
+                        frames.push(pkt::frame(&seg, Framing::Ethernet));
+                    }
+                    for _ in 0..4 {
+                        out.push(mk(Kind::Tls, frames.clone()));
+                    }
+                }
+            }
+        }
         out
     }
 
